@@ -30,8 +30,8 @@ ASSUMPTIONS = ["the label prefix '__Pyx_L' does not occur in the input text (nee
 # model variant flags.  False = the code as it is.
 # FIXP: True after proposed_fixes/C47-fstring_prefix_not_lowercase_f.diff  ((?P<fstring> f )? -> [fF][rR]?)
 # FIXE: True after proposed_fixes/C47-fstring_flag_after_empty_triple.diff (is_fstring dropped after '' '' '')
-FIXP = False
-FIXE = False
+FIXP = True
+FIXE = True
 if os.environ.get("C47_FIXP") in ("0", "1"):      # testing the proposed fixes in a scratch worktree
     FIXP = os.environ["C47_FIXP"] == "1"
 if os.environ.get("C47_FIXE") in ("0", "1"):
